@@ -407,6 +407,44 @@ func runPipe(pc pipeCase) (out pipeOut) {
 		out.script = append([]PFrame{sel}, pc.data...)
 	case "connected":
 		out.script = pc.data
+	case "second-generation":
+		// a first generation reaches Selected and is dropped by the peer; on the NEXT generation data arrives before
+		// any select: whatever the first generation left behind (a cached "selected" hint, a timer, a registry) must
+		// not let it through (after seeded change C07d-2)
+		if err := p.Send(sel); err != nil {
+			out.err = err.Error()
+			return
+		}
+		if !ep.WaitState(hsms.SelectedState, 3*time.Second) || !waitSelectedReports(ep, 1, 2*time.Second) {
+			out.err = "first generation did not reach Selected"
+			return
+		}
+		p.Close()
+		if !ep.WaitState(hsms.NotConnectedState, 3*time.Second) && ep.Conn.State() == hsms.SelectedState {
+			out.err = "the drop of the first generation was not noticed"
+			return
+		}
+		p2, err := ep.Attach(5 * time.Second)
+		if err != nil {
+			out.err = "no second generation: " + err.Error()
+			return
+		}
+		defer p2.Close()
+		p = p2
+		if pc.active {
+			f, err := p.Recv(5 * time.Second)
+			if err != nil || f.SType() != 1 {
+				out.err = "no Select.req from the active library on the second generation"
+				return
+			}
+			s := f.Sys()
+			out.selSys = uint32(s[0])<<24 | uint32(s[1])<<16 | uint32(s[2])<<8 | uint32(s[3])
+		}
+		if !ep.WaitState(hsms.NotSelectedState, 3*time.Second) {
+			out.err = "second generation not in NotSelected after TCP connect"
+			return
+		}
+		out.script = pc.data
 	case "deselected":
 		// establish, settle, deselect: those frames are part of the script the model replays
 		pre := []PFrame{sel}
@@ -490,6 +528,9 @@ func c07Inbound(c *Ctx) {
 		for j := 0; j < c.Pick(6, 60); j++ {
 			cases = append(cases, pipeCase{active, "connected", c07DataShapes(r, 0xFFFF, 1+r.IntN(3)), nil, "one-write"})
 			cases = append(cases, pipeCase{active, "deselected", c07DataShapes(r, 0xFFFF, 1+r.IntN(3)), nil, "one-write"})
+			if j%2 == 0 {
+				cases = append(cases, pipeCase{active, "second-generation", c07DataShapes(r, 0xFFFF, 1+r.IntN(3)), nil, "one-write"})
+			}
 		}
 	}
 	outs := make([]pipeOut, len(cases))
